@@ -8,8 +8,7 @@ PID = "C02"
 def run(tier):
     res = common.Result(PID, tier, "same workload as C01; whenever oRatio answers 'unsolvable' (solve()==false, unsolvable / inconsistent-problem error while reading) the verdict "
                         "is compared with ground truth: the planted assignment the program was built around (re-validated by the evaluator), z3 on the constraint-only "
-                        "fragment, or - for planning families - the planted plan and equivalence classes (reordered / renamed / tautology-extended variants must get "
-                        "the same verdict); non-trivial = the program terminated within the budget with a verdict")
+                        "fragment, or - for planning families - the planted plan (every generated planning problem is solvable by construction); non-trivial = the program terminated within the budget with a verdict")
     res.assumptions = ["'no solution' is only ever concluded by z3 on the constraint fragment; elsewhere only 'has a solution' is known (planted / metamorphic)",
                        "non-terminating searches are inconclusive"]
     exes = c01.probes(tier)
